@@ -116,15 +116,17 @@ def ai_payload(w, repo, session, f):
                        "agent_name": "tool", "model": "m", "conversation_id": session})
 
 
-def overlapping_windows(seq, journal="checkpoints"):
-    """True when two processes were both between <journal>.read and <journal>.write at some moment of the schedule."""
+def overlapping_windows(seq, journal="checkpoints", domains=None):
+    """True when two processes that share a journal (same work tree: linked worktrees have private working logs) were both inside
+    their journal read..exit window at some moment of the schedule."""
     # a process's window opens when it is released from its first journal read and closes when it exits (the post-commit consumer
     # archives the journal after its last sync point, so nothing earlier than exit is a safe end)
     inside = set()
     for who, point in seq:
         if point == journal + ".read":
             inside.add(who)
-            if len(inside) > 1:
+            doms = [domains[i] if domains else 0 for i in inside]
+            if len(doms) != len(set(doms)):
                 return True
         elif point == "exit":
             inside.discard(who)
@@ -201,7 +203,8 @@ def scenario(kind, choices, serial=None):
         for t in w.trace():
             if t.get("kind") == "checkpoints_write" and t.get("pid") in pids and "/working_logs/" in t.get("file", ""):
                 sha = t["file"].split("/working_logs/")[1].split("/")[0]
-                if len(sha) == 40 and sha not in heads:
+                # only an agent report can be "stale": a commit process legitimately writes the journal of the HEAD it started from
+                if len(sha) == 40 and sha not in heads and cmds[pids[t["pid"]]][0][0] == "checkpoint":
                     stale.append(pids[t["pid"]])
         # ---- every journal parses
         for p in glob.glob(os.path.join(repo, ".git", "**", "checkpoints.jsonl"), recursive=True):
@@ -243,7 +246,7 @@ def scenario(kind, choices, serial=None):
             except (ValueError, KeyError):
                 pass
             outcome["%s:%s" % (os.path.basename(path), text)] = who
-        return dict(viol=viol, seq=seq, opts=opts, inconclusive=None, outcome=outcome, stale=stale)
+        return dict(viol=viol, seq=seq, opts=opts, inconclusive=None, outcome=outcome, stale=stale, domains=[cwd for _, cwd, _ in cmds])
     finally:
         c.destroy()
 
@@ -269,7 +272,7 @@ def run_case(case):
     d8 = d45 = 0
     if r.get("inconclusive") is None and r.get("outcome") not in ser:
         v = dict(kind="C11/not-serializable", pair=kind, outcome=r["outcome"], serial_outcomes=ser, schedule=r["seq"])
-        if overlapping_windows(r["seq"]):
+        if overlapping_windows(r["seq"], domains=r.get("domains")):
             d8 = 1          # open finding D8, identified by call site: two journal read..consume windows overlap
         elif r.get("stale"):
             d45 = 1         # open finding D45: a checkpoint process resolved its base commit before a commit landed and wrote to the stale log
